@@ -165,6 +165,58 @@ def all_objects(top):
   return objs
 
 
+def check_objects(top, fail, acc):
+  from pymtl3.dsl.Connectable import Signal
+  from pymtl3.dsl.Component import Component
+  objs = all_objects(top)
+  acc.count("evaluations", len(objs))
+  byname = {}
+  for o in objs:
+    n = repr(o)
+    if n in byname and byname[n] is not o:
+      fail("duplicate-name:" + kind(o), "unique", n, f"{type(o).__name__} vs {type(byname[n]).__name__}")
+    byname[n] = o
+  env = {"s": top}
+  for n, o in byname.items():
+    try:
+      back = eval(n, env)
+    except Exception as ex:
+      fail("name-does-not-evaluate:" + kind(o), n, repr(ex)[:120]); continue
+    if back is not o:
+      fail("name-evaluates-to-other-object:" + kind(o), n, repr(back)[:80], f"{type(o).__name__}")
+      continue
+    if o is top: continue
+    pn = parent_name(n)
+    try: par = o.get_parent_object()
+    except Exception as ex:
+      fail("get_parent_object-raised:" + kind(o), pn, repr(ex)[:100]); continue
+    if pn is None or pn not in byname or byname[pn] is not par:
+      fail("parent-mismatch:" + kind(o), pn, repr(par), n); continue
+    # host component = nearest component on the parent chain
+    x, depth = par, 0
+    while not isinstance(x, Component): x = x.get_parent_object()
+    host = x
+    if hasattr(o, "get_host_component"):
+      try:
+        h = o.get_host_component()
+        if isinstance(o, Component): pass
+        elif h is not host: fail("host-mismatch:" + kind(o), repr(host), repr(h), n)
+      except Exception as ex:
+        fail("get_host_component-raised:" + kind(o), repr(host), repr(ex)[:100], n)
+    if isinstance(o, Component):
+      lvl, y = 0, o
+      while y is not top:
+        y = y.get_parent_object()
+        if isinstance(y, Component): lvl += 1
+      if o.get_component_level() != lvl: fail("level-mismatch", lvl, o.get_component_level(), n)
+    if isinstance(o, Signal):
+      t = o
+      while isinstance(t.get_parent_object(), Signal): t = t.get_parent_object()
+      if o.get_top_level_signal() is not t: fail("top-level-signal-mismatch", repr(t), repr(o.get_top_level_signal()), n)
+      if o.is_top_level_signal() != (t is o): fail("is_top_level_signal-mismatch", t is o, o.is_top_level_signal(), n)
+  return byname
+
+
 def check_hierarchy(tm, mm, acc):
   from pymtl3.dsl.Connectable import Signal
   from pymtl3.dsl.Component import Component
@@ -185,53 +237,22 @@ def check_hierarchy(tm, mm, acc):
       try: post_touch(s)
       except Exception as ex:
         fail("post-touch-raised", "slice/field access works", repr(ex)[:200], repr(s)); break
-    objs = all_objects(top)
-    acc.count("evaluations", len(objs))
-    byname = {}
-    for o in objs:
-      n = repr(o)
-      if n in byname and byname[n] is not o:
-        fail("duplicate-name:" + kind(o), "unique", n, f"{type(o).__name__} vs {type(byname[n]).__name__}")
-      byname[n] = o
-    env = {"s": top}
-    for n, o in byname.items():
-      try:
-        back = eval(n, env)
-      except Exception as ex:
-        fail("name-does-not-evaluate:" + kind(o), n, repr(ex)[:120]); continue
-      if back is not o:
-        fail("name-evaluates-to-other-object:" + kind(o), n, repr(back)[:80], f"{type(o).__name__}")
-        continue
-      if o is top: continue
-      pn = parent_name(n)
-      try: par = o.get_parent_object()
-      except Exception as ex:
-        fail("get_parent_object-raised:" + kind(o), pn, repr(ex)[:100]); continue
-      if pn is None or pn not in byname or byname[pn] is not par:
-        fail("parent-mismatch:" + kind(o), pn, repr(par), n); continue
-      # host component = nearest component on the parent chain
-      x, depth = par, 0
-      while not isinstance(x, Component): x = x.get_parent_object()
-      host = x
-      if hasattr(o, "get_host_component"):
-        try:
-          h = o.get_host_component()
-          if isinstance(o, Component): pass
-          elif h is not host: fail("host-mismatch:" + kind(o), repr(host), repr(h), n)
-        except Exception as ex:
-          fail("get_host_component-raised:" + kind(o), repr(host), repr(ex)[:100], n)
-      if isinstance(o, Component):
-        lvl, y = 0, o
-        while y is not top:
-          y = y.get_parent_object()
-          if isinstance(y, Component): lvl += 1
-        if o.get_component_level() != lvl: fail("level-mismatch", lvl, o.get_component_level(), n)
-      if isinstance(o, Signal):
-        t = o
-        while isinstance(t.get_parent_object(), Signal): t = t.get_parent_object()
-        if o.get_top_level_signal() is not t: fail("top-level-signal-mismatch", repr(t), repr(o.get_top_level_signal()), n)
-        if o.is_top_level_signal() != (t is o): fail("is_top_level_signal-mismatch", t is o, o.is_top_level_signal(), n)
+    byname = check_objects(top, fail, acc)
+    objs = byname
     namesets.append((pre, set(byname)))
+    if rep == 1:
+      # names must stay consistent after a component is re-inserted by the mutation API
+      import pymtl3
+      inds = lambda c: getattr(c._dsl, "_my_indices", None)
+      cands = [c for c in top.get_all_components() if c is not top and inds(c) and c.get_parent_object() is not top]
+      cands += [c for c in top.get_all_components() if c is not top and not inds(c) and c.get_parent_object() is not top]
+      for c in sorted(cands, key=repr)[:2]:
+        try:
+          top.replace_component(c, type(c))
+        except Exception as ex:
+          fail("replace-raised", "replace_component works", repr(ex)[:160], repr(c)); break
+        acc.count("replacements")
+        check_objects(top, lambda sig, e, g, m="": fail("after-replace:" + sig, e, g, m), acc)
     if rep == 0:
       acc.count("objects", len(objs))
       acc.count("lazy_objects", len(set(byname) - pre))
